@@ -9,6 +9,10 @@ ops (W = worker = one process, H = handle id, sN = semaphore name, mN = segment 
   W crash K <op…>   the op's process is SIGKILLed when K of the op's system calls have completed
   W crashA K <op…>  same state (the harness kills inside the K-th call's wrapper, after the real call)
   W eintr N1,N2,… <op…>   Ni EINTR results before the i-th system call (where interruptible)
+  W fail K:ERR,… <op…>    the K-th system call of the op (counted from 0, failed ones included) is not made and fails
+                    with errno ERR (scripted failure of the environment; the statement does not judge such a call:
+                    the spec column takes the call's result and the names it worked on from the model)
+  W null            every public call with a NULL handle / name (and p_semaphore_new with a negative value) in worker W
   W kill            SIGKILL of the idle worker, a fresh process takes its place
   par SCHED W1 <op…> ; W2 <op…>   two calls in flight, SCHED ∈ {a,b}* gives the order of their system calls
   obs | reset
@@ -27,9 +31,14 @@ structure St where
   nextPid : Nat := 3
   objInc : List (Nat × Nat) := []
   segInc : List (Nat × Nat) := []
+  leak : List (Nat × Nat) := []      -- (pid, shm key): a mapping whose `munmap` failed (scripted): still there, no handle
 
 def errName : Errno → String
   | .EINTR => "EINTR" | .EEXIST => "EEXIST" | .ENOENT => "ENOENT" | .EINVAL => "EINVAL" | .EBADF => "EBADF"
+  | .ENOMEM => "ENOMEM" | .EACCES => "EACCES" | .EMFILE => "EMFILE"
+
+def errOfName (s : String) : Option Errno :=
+  [Errno.EINTR, .EEXIST, .ENOENT, .EINVAL, .EBADF, .ENOMEM, .EACCES, .EMFILE].find? fun e => errName e = s
 
 def keyName : SemKey → String
   | .user n => s!"s{n}"
@@ -273,7 +282,7 @@ def obsSpec (s : St) : String :=
       let n := ((List.range NH).filter fun h =>
         match sp.hs h with
         | some x => x.kind = .shm ∧ x.pid = pid ∧ x.name = k
-        | none => false).length
+        | none => false).length + (s.leak.filter fun x => x.1 = pid ∧ x.2 = k).length
       if n = 0 then none else some s!"w{w}:m{k}#{n}"
   " ".intercalate (sems ++ shms ++ hs ++ counts)
 
@@ -301,6 +310,57 @@ def seqOp (s : St) (w : Nat) (op : Op) (script : List Nat) : St × String × Boo
     let s' := record { s with g := g1, sp := sp' } pid op
     (s', withSpec tr res (specStr r), res == "fault")
 
+def parseFaults (s : String) : Option (List (Nat × Errno)) :=
+  (s.splitOn ",").mapM fun x =>
+    match x.splitOn ":" with
+    | [k, e] => do let k ← k.toNat?; let e ← errOfName e; some (k, e)
+    | _ => none
+
+/-- the shm key an op works on (for the bookkeeping of leaked mappings) -/
+def shmKeyOf (g0 : G) : Op → Option Nat
+  | .newShm _ k _ _ => some k
+  | .free h => (match g0.hs h with | some (_, .shm x) => some x.key | _ => none)
+  | _ => none
+
+/-- a sequential op of worker `w` with scripted failures.  When a failure fired, the statement does not judge the
+    call (the environment broke the contract): the spec column takes the result from the model, keeps its handle table
+    in step (a failed `new` gives no handle, a `free` always removes it) and takes the names the call worked on from the
+    model, as after a crash. -/
+def failOp (s : St) (w : Nat) (op : Op) (faults : List (Nat × Errno)) : St × String × Bool :=
+  let pid := s.wpid.getD w 0
+  let g0 := s.g
+  let g1 := g0.callF pid op faults
+  let n := g1.log.length - g0.log.length
+  let tr := traceSince g0 g1 fun _ => ""
+  if !(faults.any fun f => f.1 < n) then seqOp s w op []
+  else if blocked g1 g0 then ({ s with g := g1 }, tr ++ " => would-block", true)
+  else if (g1.calls pid).isSome then ({ s with g := g1 }, tr ++ " => out-of-fuel", true)
+  else
+    let res := retStr (g1.ret pid)
+    if res == "bad-op" then (s, "bad-op", false) else
+    let failed := res.startsWith "fail"
+    let isNew : Bool := match op with | .newSem .. | .newShm .. => true | _ => false
+    let isLock : Bool := match op with | .acq _ | .rel _ | .lock _ | .unlock _ => true | _ => false
+    let sp' := if failed && (isNew || isLock) then s.sp else (specOp s.sp pid op).1
+    let s1 := record { s with g := g1, sp := sp' } pid op
+    let s2 := if isLock && failed then s1 else resyncFor s1 g0 pid op
+    let evs := g1.log.take n
+    let leaks := (evs.filter fun e => match e.sys, e.res with | .munmap _ _, .err _ => true | _, _ => false).length
+    let s3 := match shmKeyOf g0 op with
+      | some k => { s2 with leak := List.replicate leaks (pid, k) ++ s2.leak }
+      | none => s2
+    (s3, tr ++ " => " ++ res, false)
+
+def guardStr : GuardRes → String
+  | .invalidArgument => s!"fail {ipcInvalidArgument}/0"
+  | .nothing => "ok"
+  | .null => "null"
+  | .zero => "0"
+
+def nullLine : String :=
+  " => " ++ " ; ".intercalate ([GuardCall.semNewNull, .semNewNegative, .semOwn, .semAcq, .semRel, .semFree,
+    .shmNewNull, .shmOwn, .shmFree, .shmLock, .shmUnlock, .shmAddr, .shmSize].map fun c => guardStr (guardRes c))
+
 def stepN (g : G) (t : Tid) : Nat → G
   | 0 => g
   | n + 1 => if (g.calls t).isSome then stepN (g.step t false) t n else g
@@ -317,7 +377,7 @@ def crashOp (s : St) (w k : Nat) (op : Op) : St × String × Bool :=
   else
     let tr := traceSince g0 g1 fun _ => ""
     let g2 := g1.kill pid
-    let s1 := { s with g := g2, sp := IPCSpec.kill s.sp pid }
+    let s1 := { s with g := g2, sp := IPCSpec.kill s.sp pid, leak := s.leak.filter (·.1 ≠ pid) }
     let s2 := resyncFor s1 g0 pid op
     (respawn s2 w, tr ++ " => crashed", false)
 
@@ -383,10 +443,15 @@ def step (s : St) (toks : List String) : IO (St × Bool) := do
       | ["kill"] =>
         let pid := s.wpid.getD w 0
         IO.println "ok"
-        return (respawn { s with g := s.g.kill pid, sp := IPCSpec.kill s.sp pid } w, false)
+        return (respawn { s with g := s.g.kill pid, sp := IPCSpec.kill s.sp pid, leak := s.leak.filter (·.1 ≠ pid) } w, false)
       | "crash" :: k :: optoks | "crashA" :: k :: optoks =>
         match k.toNat?, parseOp optoks with
         | some k, some op => out (crashOp s w k op)
+        | _, _ => bad
+      | ["null"] => IO.println nullLine; return (s, false)
+      | "fail" :: fs :: optoks =>
+        match parseFaults fs, parseOp optoks with
+        | some fs, some op => out (failOp s w op fs)
         | _, _ => bad
       | "eintr" :: sc :: optoks =>
         match parseScript sc, parseOp optoks with
